@@ -34,6 +34,16 @@ def _worker(args):
     return r
 
 
+def _limit_memory():
+    """each worker may use at most VERIF_WORKER_MEM_GB (default 6) of address space: a runaway allocation fails as MemoryError"""
+    try:
+        import resource
+        gb = float(os.environ.get("VERIF_WORKER_MEM_GB", "6"))
+        resource.setrlimit(resource.RLIMIT_AS, (int(gb * 2 ** 30), int(gb * 2 ** 30)))
+    except Exception:  # noqa
+        pass
+
+
 class Agg:
     def __init__(self):
         self.counts = {}
@@ -92,9 +102,20 @@ def run_property(pid, tier, seed, jobs=None, budget=None):
                 break
     else:
         ctx = mp.get_context("fork")
-        with ctx.Pool(min(jobs, len(items))) as pool:
+        # a shard that never returns (a code under test that loops or grows without bound) must not hang the check: hard deadline
+        hard = float(os.environ.get("VERIF_HARD_LIMIT_S", "0")) or max(4 * budget, budget + 600)
+        with ctx.Pool(min(jobs, len(items)), initializer=_limit_memory) as pool:
             it = pool.imap_unordered(_worker, [(modname, x) for x in items], chunksize=1)
-            for r in it:
+            while True:
+                try:
+                    r = it.next(timeout=max(1.0, hard - (time.time() - t0)))
+                except StopIteration:
+                    break
+                except mp.TimeoutError:
+                    pool.terminate()
+                    agg.machinery.append("%d of %d shards had not returned after %.0f s (hard limit): the code under test or the check "
+                                         "does not terminate" % (agg.shards_total - agg.shards_done, agg.shards_total, hard))
+                    break
                 agg.add(r)
                 if time.time() - t0 > budget:
                     pool.terminate()
